@@ -2,6 +2,7 @@
 package c13
 
 import (
+	"os"
 	"fmt"
 	"sort"
 	"strconv"
@@ -351,7 +352,49 @@ func checkCase(c Case) (Outcome, error) {
 	if w := clean.expected(); norm(fin) != norm(w) {
 		return out, fmt.Errorf("after fixing the file and re-running, the database is\n   %v\n a run without failure gives\n   %v", fin, w)
 	}
+	// ... including the file hash each revision records: a run without failure records the hash the file has in atlas.sum
+	if bad, err := staleHashes(dbp, sb.Path("m", "atlas.sum")); err != nil {
+		return out, fmt.Errorf("harness: %v", err)
+	} else if len(bad) > 0 {
+		return out, fmt.Errorf("after fixing the file and re-running, the revisions of %v record a file hash that is not the one in atlas.sum (a run without failure records the hash of the file it applied)", bad)
+	}
 	return out, nil
+}
+
+// staleHashes lists the versions whose revision row records another file hash than atlas.sum holds for that file.
+func staleHashes(dbp, sumPath string) ([]string, error) {
+	b, err := os.ReadFile(sumPath)
+	if err != nil {
+		return nil, err
+	}
+	sums := map[string]string{} // version -> hash
+	for _, l := range strings.Split(string(b), "\n")[1:] {
+		if i := strings.LastIndex(l, " h1:"); i > 0 {
+			name := l[:i]
+			sums[strings.SplitN(name, "_", 2)[0]] = l[i+len(" h1:"):]
+		}
+	}
+	db, err := sqliteref.OpenFile(dbp)
+	if err != nil {
+		return nil, err
+	}
+	defer db.Close()
+	rows, err := db.Query("SELECT version, hash FROM atlas_schema_revisions ORDER BY version")
+	if err != nil {
+		return nil, err
+	}
+	defer rows.Close()
+	var bad []string
+	for rows.Next() {
+		var v, h string
+		if err := rows.Scan(&v, &h); err != nil {
+			return nil, err
+		}
+		if want, ok := sums[v]; ok && strings.TrimPrefix(h, "h1:") != want {
+			bad = append(bad, v)
+		}
+	}
+	return bad, rows.Err()
 }
 
 // schema apply: an early statement succeeds, a later one fails on the data; default mode must be all-or-nothing.
